@@ -1,4 +1,4 @@
-import AaVerif.Aa.Wire
+import AaVerif.Aa.Order
 import AaVerif.Generated.AaTables
 /-!
 # C11 — rule ordering is a consistent total preorder, so sorting is canonical
@@ -87,6 +87,36 @@ theorem C11_sorted_perm_unique {α : Type} {D : α → Prop} {c : α → α → 
   have : c a b = 0 := by have := h.antisymm a b; omega
   exact h.eq_of_zero a b (hD a ha) (hD b hb') this
 
+/-! ### The comparator of `Rules.Sort` on its consistent domain -/
+
+/-- **C11 for `Rules.Sort`'s comparator** (partial: on `DomS T b`). Kind weight first, then the kind's
+`Compare` — with the prefix rule of `file` and the `abstractions/base` rule of `include` — is
+antisymmetric, transitive, and zero only on identical rules, for rules of the 16 weighted kinds over
+the sort alphabet, without comment, not `include if exists`, file paths all with (`b = true`) or all
+without (`b = false`) a known prefix. Each excluded class is a known finding with a proved witness. -/
+theorem C11_sort_order_partial (b : Bool) : IsOrd (DomS T b) (sortCmp T) :=
+  sortCmp_isOrd T C11_alphabet_lower b
+
+/-- **Sorting is idempotent and input-order independent** (partial, same domain), for *any* sort
+algorithm that returns a sorted permutation of its input (the contract of `slices.SortFunc`): two such
+results for two arrangements of the same rules are the same list. -/
+theorem C11_sort_canonical_partial (b : Bool) (srt : List Rule → List Rule)
+    (hsrt : ∀ l, (srt l).Perm l ∧ (srt l).Pairwise (fun x y => sortCmp T x y ≤ 0))
+    {l₁ l₂ : List Rule} (hp : l₁.Perm l₂) (hD : ∀ r ∈ l₁, DomS T b r) :
+    srt l₁ = srt l₂ ∧ srt (srt l₁) = srt l₁ := by
+  have O := C11_sort_order_partial b
+  have D1 : ∀ r ∈ srt l₁, DomS T b r := fun r hr => hD r ((hsrt l₁).1.subset hr)
+  constructor
+  · exact C11_sorted_perm_unique O D1 ((hsrt l₁).1.trans (hp.trans (hsrt l₂).1.symm)) (hsrt l₁).2 (hsrt l₂).2
+  · have D2 : ∀ r ∈ srt (srt l₁), DomS T b r := fun r hr => D1 r ((hsrt (srt l₁)).1.subset hr)
+    exact C11_sorted_perm_unique O D2 (hsrt (srt l₁)).1 (hsrt (srt l₁)).2 (hsrt l₁).2
+
+/-- the reference sort meets that contract on the domain, so the statement is not vacuous -/
+theorem C11_reference_sort (b : Bool) {l₁ l₂ : List Rule} (hp : l₁.Perm l₂) (hD : ∀ r ∈ l₁, DomS T b r) :
+    sortBy (sortCmp T) l₁ = sortBy (sortCmp T) l₂ ∧
+    sortBy (sortCmp T) (sortBy (sortCmp T) l₁) = sortBy (sortCmp T) l₁ :=
+  ⟨sort_canonical T C11_alphabet_lower b hp hD, sort_idempotent T C11_alphabet_lower b l₁ hD⟩
+
 /-! ### Where the property fails on the unchanged code (proved witnesses, replayed on the real code) -/
 
 /-- letter case is ignored: two different paths compare equal -/
@@ -114,5 +144,15 @@ example : Dom "signal" [1, 1, 0, 2, 0]
   refine ⟨rfl, ?_, ?_⟩
   · decide +kernel
   · decide +kernel
+
+/-- the domain of the sort theorems is inhabited by ordinary rules of several kinds -/
+example : DomS T true (fileRule "/etc/a") ∧ DomS T true (fileRule "@{bin}/a") ∧
+    DomS T true { kind := "signal", flds := [.l ["send".toList], .l ["term".toList], .s "foo".toList] } ∧
+    DomS T true { kind := "include", flds := [.b false, .s "abstractions/base".toList, .b true] } := by
+  refine ⟨⟨⟨?_, ?_, ?_, ?_, ?_⟩, ?_, ?_, ?_, ?_⟩, ⟨⟨?_, ?_, ?_, ?_, ?_⟩, ?_, ?_, ?_, ?_⟩,
+    ⟨⟨?_, ?_, ?_, ?_, ?_⟩, ?_, ?_, ?_, ?_⟩, ⟨⟨?_, ?_, ?_, ?_, ?_⟩, ?_, ?_, ?_, ?_⟩⟩ <;> decide +kernel
+
+example : sortBy (sortCmp T) [fileRule "/etc/b", fileRule "@{bin}/a", fileRule "/etc/a"]
+    = [fileRule "@{bin}/a", fileRule "/etc/a", fileRule "/etc/b"] := by decide +kernel
 
 end C11
